@@ -48,6 +48,7 @@ DECIDING = ['file payload == text.encode(charset)', 'loaded text == original',
             'default charset after successful call', 'default charset after failed call',
             'default charset after injected fault']
 TIMEOUT = {'quick': 600, 'thorough': 3600}
+ENV_FULL = True        # cheap enough: every shard runs once in each interpreter environment (core.ENV_MODES)
 CHARSETS = ['latin1', 'ascii', 'utf-8', 'utf-16', 'utf-16-le', 'cp1252', 'cp437', 'iso8859-15',
             'koi8-r', 'shift_jis', 'euc-jp', 'gb2312', 'big5', 'utf-32', 'utf-8-sig']
 CANDIDATES = (list(range(0x20, 0x7F)) + list(range(0xA0, 0x100)) + list(range(0x391, 0x3CA))
